@@ -137,3 +137,47 @@ def effects_rule(ctx, families, text, kinds=("TEXT", "CREATE", "DELETE", "MOVE")
     r.note("effect sites: %d dead under defaults, %d alive and classified" % (dead, alive))
     r.floor(floor_sites // 2)
     return r
+
+
+def newline_crossing_rule(ctx):
+    """A line break may be removed, or a token moved to its other side, only if that cannot pull the following token into
+    a `//` comment or across the end of a preprocessor directive: Chunk::SafeToDeleteNl() is the repository's test for
+    exactly that (previous chunk is not CT_COMMENT_CPP, both neighbours on the same side of a directive)."""
+    db = ctx.db
+    r = ctx.rule("newline-crossing", "every Chunk::Delete(X) / Y->Swap(X) whose operand X is a newline by a dominating fact is also dominated "
+                 "by X->SafeToDeleteNl() (not after a // comment, not at the end of a directive), reviewed exceptions aside; SafeToDeleteNl "
+                 "itself tests the previous chunk for CT_COMMENT_CPP and IsSamePreproc of both neighbours")
+    n_nl = 0
+    cnt = {}
+    for f, n, kind, detail in sorted(effect_sites(db), key=lambda x: (x[0].file, x[1]["l"])):
+        if kind == "DELETE":
+            x = detail
+        elif kind == "MOVE" and (n.get("c") or "").endswith("::Swap"):
+            x = expr_str(f, n["a"][0]) if n.get("a") else ""
+        else:
+            continue
+        cs = [(expr_str(f, cn), pol) for cn, pol in f.guard_conds(f.nblock[n["i"]]) if cn is not None]
+        is_nl = any(pol is True and (c in ("%s->IsNewline()" % x, "%s->Is(CT_NEWLINE)" % x) or (c.startswith(x + " = ") and c.endswith("->IsNewline()"))) for c, pol in cs)
+        if not is_nl:
+            continue
+        n_nl += 1
+        r.seen()
+        key = "%s/%s(%s)" % (f.qn, (n.get("c") or "").split("::")[-1], x)
+        cnt[key] = cnt.get(key, 0) + 1
+        inst = key if cnt[key] == 1 else "%s#%d" % (key, cnt[key])
+        safe = ("%s->SafeToDeleteNl()" % x, True) in cs or ("!%s->SafeToDeleteNl()" % x, False) in cs
+        r.check(safe, inst, db.loc(f, n), "%s of the line break `%s` in %s is not guarded by %s->SafeToDeleteNl(): if the break follows a `//` comment "
+                "or ends a directive the next token is swallowed by the comment / joins the directive line" % (kind.lower(), x, f.qn, x))
+    r.require(n_nl >= 14, "only %d delete/swap sites act on a chunk known to be a newline" % n_nl)
+    g = [h for h in db.fns("Chunk::SafeToDeleteNl")]
+    r.require(g, "Chunk::SafeToDeleteNl not found")
+    g = g[0]
+    body = " ".join(expr_str(g, m["i"]) for m in g.all_nodes() if m["k"] in ("ret", "decl")) + " " + \
+        " ".join(expr_str(g, (blk.get("term") or {}).get("c")) for blk in g.blocks.values() if blk.get("term") and (blk.get("term") or {}).get("c") is not None)
+    r.check("Is(CT_COMMENT_CPP)" in body and "IsSamePreproc(" in body and "GetPrev(" in body, "SafeToDeleteNl/tests-comment-and-preproc", db.loc(g, g.l0),
+            "Chunk::SafeToDeleteNl no longer tests the previous chunk for CT_COMMENT_CPP and the neighbours with IsSamePreproc: `%s`" % body[:160])
+    rf = [m for m in g.all_nodes() if m["k"] == "ret" and expr_str(g, m["i"]) == "return false"]
+    okrf = any(("tmp->Is(CT_COMMENT_CPP)", True) in [(expr_str(g, cn), pol) for cn, pol in g.guard_conds(g.nblock[m["i"]]) if cn is not None] for m in rf)
+    r.check(okrf, "SafeToDeleteNl/comment-means-unsafe", db.loc(g, g.l0), "a preceding // comment no longer makes SafeToDeleteNl() false")
+    r.floor(14)
+    return r
